@@ -370,3 +370,8 @@ META = {
     'assumptions': ['outside this claim: LineIndex (external crate), the error-tolerant parse / lowering / typer behind the queries, that hover types and completion items agree with the compiler'],
     'trusted_base': ['mirsym MIR interpreter', 'string models (as_bytes, get, slicing, trim_matches, split) listed per obligation', 'z3', 'reference scans (15 lines)'],
 }
+
+_obl_models = obligations
+def obligations():
+    from props import selftest_ob
+    return selftest_ob.obligations_models('O20.0') + _obl_models()
